@@ -4,6 +4,7 @@ Monitor: ProblemExporter().extract_problem(p) -> text (re-read independently) ->
 that text against the same domain -> public fields compared with the original's and with the
 generator's ground truth."""
 import os
+from fractions import Fraction
 from pathlib import Path
 
 from vlib import sx, lib, model, gen, env
@@ -45,7 +46,7 @@ def roundtrip(ctx, dom, pr, exp, wit, trig, init_items=None, goal=None, w=None):
         emu_bad = False
         if trig and init_items is not None and exp is not None:
             emu_fl = model.emulate_fluent_store(init_items)
-            emu_bad = (rp.fluents == emu_fl and emu_fl != exp["fluents"])
+            emu_bad = ({k: float(v) for k, v in rp.fluents.items()} == {k: float(v) for k, v in emu_fl.items()} and emu_fl != exp["fluents"])
             if goal is not None and rp.goal:
                 got_ng = sorted(repr(model.canon_expr(g)) for g in rp.goal[1:] if isinstance(g, list) and g and g[0] in model.CMP)
                 emu_ng = sorted(repr(model.canon_expr(c05.collapse_terms(g, w))) for g in goal[1:] if g[0] in model.CMP)
@@ -97,7 +98,7 @@ def generated(ctx, rng, thorough):
             except BaseException:
                 ctx.count("refused:problem")
                 continue
-            init_items = [(tuple(f[1]), model.to_frac(f[2])) for f in ast[4][1:] if f[0] == "=" and isinstance(f[1], list)]
+            init_items = [(tuple(f[1]), Fraction(float(model.to_frac(f[2])))) for f in ast[4][1:] if f[0] == "=" and isinstance(f[1], list)]
             trig = any(model.has_repeat(k) for k in fluents) or any(c05.term_has_repeat(g, w) for g in goal[1:] if g[0] in model.CMP)
             feats = set()
             if not atoms and not fluents:
